@@ -41,15 +41,13 @@ Lemma remove_listeners_spec X ls m :
   ∀ k, listeners (ms m') !! k = if decide (k ∈ ls) then None else listeners (ms m) !! k.
 Proof.
   revert m. induction ls as [|x ls IH]; intros m H; cbn.
-  - repeat split; try done.
+  - split; [done|]. repeat split; done.
   - destruct (remove_listener_spec X m x H) as (H1 & H2 & H3 & H4 & H5).
     destruct (IH _ H1) as (I1 & I2 & I3 & I4 & I5). cbn in *.
     split; [done|]. split; [congruence|]. split; [congruence|]. split; [congruence|].
-    intros k. rewrite I5, H5. destruct (decide (k = x)) as [->|Hne].
-    + rewrite lookup_delete. rewrite decide_True by left. by destruct (decide _).
-    + rewrite lookup_delete_ne by done. destruct (decide (k ∈ ls)).
-      * rewrite decide_True by (by right). done.
-      * rewrite decide_False; [done|]. rewrite elem_of_cons. tauto.
+    intros k. rewrite I5, H5.
+    destruct (decide (k = x)) as [->|Hne]; [rewrite lookup_delete|rewrite lookup_delete_ne by done];
+      repeat case_decide; try done; exfalso; set_solver.
 Qed.
 
 (* ---------------------------------------------------------------- remove_end *)
@@ -86,7 +84,7 @@ Lemma remove_end_spec X m cookie e :
                  chans (ms m') = <[cookie := ch']> (chans (ms m))).
 Proof.
   intros H Hne. unfold remove_end. destruct (chans (ms m) !! cookie) as [ch|] eqn:E.
-  2:{ exists m. repeat split; try done. left. by rewrite delete_notin. }
+  2:{ exists m. split; [done|]. split; [done|]. repeat split; try done. left. by rewrite delete_notin. }
   specialize (Hne _ eq_refl).
   assert (chan_ok ch) as Hok by (eapply (iv_ch _ _ _ _ H); eauto).
   pose proof (close_ok ch e Hok Hne) as Hc.
